@@ -37,7 +37,7 @@ DefLits(k) ==
 VARIABLES phase,    \* "A" | "B" | "done": the module being built
           enums,    \* <<[mod, vals: <<"auto"|"num"|"neg">>]>>
           consts,   \* <<[mod, ty, lit]>>
-          structs,  \* <<[mod, mems: <<[tag, req, ty, def, arr]>>, keyable]>>
+          structs,  \* <<[mod, mems: <<[tag, req, ty, def, arr]>>, keyable, plain]>>
           funcs,    \* <<[mod, ret: type | <<>> (void), params: <<[out, ty]>>]>>
           cur,      \* the definition under construction
           ty,       \* the type under construction: [on, for, toks, stack]
@@ -111,7 +111,11 @@ DefChoices == IF ~Single THEN {"none"}
               ELSE LET x == ty.toks[1] IN
                    IF x.k \in ScalarT THEN {"none"} \cup {"lit:" \o l : l \in DefLits(x.k)}
                    ELSE IF x.k = "enum" THEN {"none", "member", "num"} ELSE {"none"}
-ArrChoices(d) == IF d # "none" \/ (Single /\ ty.toks[1].k \in {"byte", "ubyte"}) THEN {0} ELSE {0, 1, 2, 3}
+\* Fixed arrays: never of bytes, never with a default.  What an ABSENT array of structs holds when those structs declare
+\* defaults is not defined by the language (zero values or declared defaults); the family stays out of that corner:
+\* an array's element type refers only to "plain" structs (no declared default anywhere inside).
+RefsPlain(toks) == \A p \in 1..Len(toks) : toks[p].k = "struct" => structs[toks[p].i].plain
+ArrChoices(d) == IF d # "none" \/ (Single /\ ty.toks[1].k \in {"byte", "ubyte"}) \/ ~RefsPlain(ty.toks) THEN {0} ELSE {0, 1, 2, 3}
 FinishMember == /\ cur.kind = "struct" /\ cur.pend /\ TyReady("mem")
                 /\ \E d \in DefChoices : \E a \in ArrChoices(d) : \E c \in 1..3 :
                      /\ (c > 1 => d = "none" /\ a = 0)
@@ -123,7 +127,8 @@ MemKeyable(m) == /\ m.arr = 0 /\ Len(m.ty) = 1
                  /\ m.ty[1].k \in KeyScalarT \cup {"enum"}
 EndStruct == /\ cur.kind = "struct" /\ ~cur.pend /\ Len(cur.mems) = cur.want
              /\ structs' = Append(structs, [mod |-> phase, mems |-> cur.mems,
-                                            keyable |-> (cur.mems # <<>> /\ \A i \in 1..Len(cur.mems) : MemKeyable(cur.mems[i]))])
+                                            keyable |-> (cur.mems # <<>> /\ \A i \in 1..Len(cur.mems) : MemKeyable(cur.mems[i])),
+                                            plain |-> (\A i \in 1..Len(cur.mems) : cur.mems[i].def = "none" /\ RefsPlain(cur.mems[i].ty))])
              /\ cur' = None /\ w' = 1 /\ UNCHANGED <<phase, enums, consts, funcs, ty>>
 
 \* ---- interface functions
@@ -178,8 +183,9 @@ RefsVisible == \A i \in 1..Len(structs) : \A a \in 1..Len(structs[i].mems) :
                      /\ (x.k = "struct" => x.i < i /\ (structs[x.i].mod = "A" \/ structs[i].mod = "B"))
                      /\ (x.k = "enum" => x.i <= Len(enums) /\ (enums[x.i].mod = "A" \/ structs[i].mod = "B"))
 NoByteArrays == \A i \in 1..Len(structs) : \A a \in 1..Len(structs[i].mems) :
-                   LET m == structs[i].mems[a] IN m.arr > 0 => (m.def = "none" /\ ~(Len(m.ty) = 1 /\ m.ty[1].k \in {"byte", "ubyte"}))
+                   LET m == structs[i].mems[a] IN m.arr > 0 => (m.def = "none" /\ ~(Len(m.ty) = 1 /\ m.ty[1].k \in {"byte", "ubyte"})
+                                                                 /\ \A p \in 1..Len(m.ty) : m.ty[p].k = "struct" => structs[m.ty[p].i].plain)
 \* state constraint of the exhaustive tiny instance (MC_IdlPrograms.cfg)
-Tiny == /\ Len(structs) <= 1 /\ Len(funcs) <= 1
+Tiny == /\ phase = "A" /\ Len(structs) <= 1 /\ Len(funcs) <= 1
         /\ (cur.kind \in {"struct", "enum", "func"} => cur.want <= 1)
 ====
